@@ -423,10 +423,11 @@ fn clause_for(spec: &ClauseSpec, uids: &[u16]) -> DynClause {
         M::Arc2Prov => arc1::clause(ByArc2Mock::arc2_prov, spec, uids),
         M::RcU => rc1::clause(ByRcUMock::rcu, spec, uids),
         M::Show => panic!("FmtT::show is only used unmentioned"),
+        M::N0 => panic!("NoApi::n0 cannot be mentioned: its trait is mocked without api="),
         M::Z0 => ref0::clause(ZeroMock::z0, spec, uids),
         M::GpU8 => opaque::clause_u8(|| GenMMock::gp.with_types::<u8>(), spec, uids),
         M::GpU16 => opaque::clause_u16(|| GenMMock::gp.with_types::<u16>(), spec, uids),
-        other @ (M::LendA | M::LendB | M::LendMut | M::Lent | M::LendClone | M::LendVia | M::LendViaMut | M::LendZ | M::OwnSingle | M::OwnMulti
+        other @ (M::LendA | M::LendB | M::LendMut | M::Lent | M::LendClone | M::LendGuard | M::LendVia | M::LendViaMut | M::LendZ | M::OwnSingle | M::OwnMulti
         | M::OwnOpt | M::OwnRes | M::OwnTup | M::OwnTup1 | M::OwnVec | M::OwnTup3 | M::OwnDeepOpt | M::OwnDeepPoll | M::OwnPollMulti | M::OwnOptMulti | M::TermReport) => {
             panic!("{other:?} is configured through Config::specials")
         }
@@ -630,6 +631,11 @@ fn special_clause(sp: &Special) -> DynClause {
         ),
         Special::Lent { id } => DynClause::new(LendMock::lent.each_call(matching!(_)).returns(Tracked::new(&tracker, *id))),
         Special::LendZ => DynClause::new(LendMock::lend_z.each_call(matching!(_)).answers(&|u, _| u.make_ref(ZTok::new()))),
+        Special::LendGuard => DynClause::new(
+            LendMock::lend_guard
+                .each_call(matching!(_))
+                .answers(&|u, x| u.make_ref(GuardVal { clone: u.clone(), x })),
+        ),
         Special::LendClone => DynClause::new(
             LendMock::lend_clone
                 .each_call(matching!(_))
